@@ -43,6 +43,8 @@ func runC09(c *Ctx) {
 	c09SyncReader(c)
 	// "no page beyond the committed database size": header Commit provenance
 	ltxHeaderRules(c)
+	// ... also for the snapshot encoder, the other consumer of pageMap (shared with C02)
+	c02Snapshot(c)
 	// the cursor (offset, salts) the reader resumes at is the one verify established:
 	// on a restarted WAL it is the header with the current salts (shared with C04)
 	c04DefaultDeny(c)
